@@ -227,9 +227,12 @@ pub fn gen(r: &mut Rng, thorough: bool) -> Vec<(String, String)> {
                 P3::from(u * a + w * b2 - nrm * c) };
             let mut sur = |r: &mut Rng| -> P3 { let (a, b2) = if lat { (r.range(-4, 4) as f64 * 0.5, r.range(-4, 4) as f64 * 0.5) } else { (r.uniform(-10.0, 10.0), r.uniform(-10.0, 10.0)) };
                 P3::from(u * a + w * b2) };
-            let kind = r.below(10);
+            // deterministic tie cases (every seed): ray parallel to the plane from strictly inside with max_toi = +inf,
+            // non-solid (it % 50 == 3), and from a point of the plane (it % 50 == 13)
+            let forced = if it % 50 == 3 { 1 } else if it % 50 == 13 { 2 } else { 0 };
+            let kind = if forced > 0 { 0 } else { r.below(10) };
             let (o, d) = if kind == 0 { // parallel to the plane, origin inside / outside / on it
-                let o = match r.below(3) { 0 => ins(r), 1 => sur(r), _ => { let p = ins(r); P3::from(-p.coords) } };
+                let o = match if forced > 0 { forced - 1 } else { r.below(3) } { 0 => ins(r), 1 => sur(r), _ => { let p = ins(r); P3::from(-p.coords) } };
                 let d = (u * if lat { r.range(-2, 2) as f64 } else { r.uniform(-1.0, 1.0) } + w * if lat { r.range(1, 2) as f64 } else { r.uniform(0.1, 1.0) }) * dir_scale(r, lat);
                 (o, d)
             } else if kind <= 5 { // from the outside half toward the plane or away
@@ -238,10 +241,11 @@ pub fn gen(r: &mut Rng, thorough: bool) -> Vec<(String, String)> {
                 let s = dir_scale(r, lat); (o, if lat { d * s } else { d * (s / d.norm()) })
             } else { gen_ray3(r, lat, 5.0, &mut ins, &mut sur) };
             let hs = halfspace(nrm);
+            let solid = if forced == 1 { false } else { solid };
             let t0 = hs.cast_local_ray(&Ray::new(o, d), f64::MAX, solid);
-            let m = gen_max(r, lat, t0, d.norm());
+            let m = if forced == 1 { f64::INFINITY } else { gen_max(r, lat, t0, d.norm()) };
             v.push(("halfspace_normal".into(), format!("{} {}", d3::hv(&nrm), tail(&o, &d, m, solid))));
-            let iso = d3::gen_iso(r, lat, 50.0);
+            let iso = if forced > 0 { d3::gen_iso(r, true, 50.0) } else { d3::gen_iso(r, lat, 50.0) };
             v.push(("halfspace_posed".into(), format!("{} {} {}", d3::hv(&nrm), d3::hiso(&iso), tail(&(iso * o), &(iso * d), m, solid))));
         }
         // ---------------- triangle (3-D)
